@@ -506,6 +506,40 @@ def round5():
     return ms
 
 
+def round6():
+    """rules added after the sixth (held-out) seeding round"""
+    from mutants import R, RS, QUAD, PACK, S_IMPL
+    ms = [
+        # AC16: the value of a cotangent steers control flow
+        R("r6-cotangent-zero-shortcut", "C13", QUAD, "        nparams = ctx.nparams\n        params = allparams[:nparams]\n        fcn = ctx.fcn\n",
+          "        nparams = ctx.nparams\n        params = allparams[:nparams]\n        fcn = ctx.fcn\n        if not grad_ys.any():\n            grad_ys = grad_ys * 0\n", "AC16",
+          note="first-order values unchanged; the recorded backward no longer depends on the cotangent on that piece"),
+        R("r6-cotangent-shape-test-ok", "C13", QUAD, "        nparams = ctx.nparams\n        params = allparams[:nparams]\n        fcn = ctx.fcn\n",
+          "        nparams = ctx.nparams\n        params = allparams[:nparams]\n        fcn = ctx.fcn\n        if grad_ys.ndim == 0 or grad_ys.shape[0] == 0:\n            nparams = ctx.nparams\n", expect="silent",
+          note="shape / None-ness of a cotangent is not its value"),
+        # C03-TN: the termination norms
+        R("r6-termination-norm-last-dim", "C03", RS, "        ynorm = y.norm()\n", "        ynorm = y.norm(dim=-1).max()\n", "C03-TN"),
+        R("r6-termination-vector-norm-ok", "C03", RS, "        ynorm = y.norm()\n", "        ynorm = torch.linalg.vector_norm(y)\n", expect="silent"),
+        R("r6-termination-flat-linalg-norm-ok", "C03", RS, "        ynorm = y.norm()\n", "        ynorm = torch.linalg.norm(y.reshape(-1), 2)\n", expect="silent"),
+        # C20-T: the two traversals must test the kinds in the same order
+        R("r6-put-object-before-list", "C20", PACK, "        b = tensors.pop(0)\n    elif isinstance(b, list):\n        for i, elmt in enumerate(b):\n            b[i] = _put_tensors(elmt, tensors)\n    elif isinstance(b, dict):\n"
+          "        for key, elmt in b.items():\n            b[key] = _put_tensors(elmt, tensors)\n    elif hasattr(b, \"__dict__\"):\n        for key, elmt in b.__dict__.items():\n            b.__dict__[key] = _put_tensors(elmt, tensors)\n",
+          "        b = tensors.pop(0)\n    elif hasattr(b, \"__dict__\"):\n        for key, elmt in b.__dict__.items():\n            b.__dict__[key] = _put_tensors(elmt, tensors)\n    elif isinstance(b, list):\n"
+          "        for i, elmt in enumerate(b):\n            b[i] = _put_tensors(elmt, tensors)\n    elif isinstance(b, dict):\n        for key, elmt in b.items():\n            b[key] = _put_tensors(elmt, tensors)\n", "C20-T",
+          note="plain lists / dicts / objects behave as before; an OrderedDict or a list subclass is refilled through the wrong view"),
+        R("r6-put-dict-before-list-ok", "C20", PACK, "    elif isinstance(b, list):\n        for i, elmt in enumerate(b):\n            b[i] = _put_tensors(elmt, tensors)\n    elif isinstance(b, dict):\n"
+          "        for key, elmt in b.items():\n            b[key] = _put_tensors(elmt, tensors)\n",
+          "    elif isinstance(b, dict):\n        for key, elmt in b.items():\n            b[key] = _put_tensors(elmt, tensors)\n    elif isinstance(b, list):\n        for i, elmt in enumerate(b):\n            b[i] = _put_tensors(elmt, tensors)\n",
+          expect="silent", note="nothing is both a list and a dict: the order of these two tests does not matter"),
+        # C01-S by path conditions
+        R("r6-unswap-conditional-return-ok", "C01", S_IMPL, "    if col_swapped:\n        # x: (ncols, *, nr, 1)\n        xk = xk.transpose(0, -1).squeeze(0)  # (*, nr, ncols)\n    return xk\n",
+          "    return xk.transpose(0, -1).squeeze(0) if col_swapped else xk\n", expect="silent"),
+        R("r6-unswap-inverted", "C01", S_IMPL, "    if col_swapped:\n        # x: (ncols, *, nr, 1)\n        xk = xk.transpose(0, -1).squeeze(0)  # (*, nr, ncols)\n    return xk\n",
+          "    return xk if col_swapped else xk.transpose(0, -1).squeeze(0)\n", "C01-S"),
+    ]
+    return ms
+
+
 def seeded():
     """the independently seeded changes kept under /verif/seeded that the property's own check detects"""
     import json
@@ -529,5 +563,5 @@ def seeded():
 
 def all_mutants():
     drop = {"hs-module-memo-used", "c01-abe-no-unswap", "c07-rk4-other-order4", "c07-rk45-A", "c07-erk-two-steps-per-interval", "c07-packer-offset"}
-    ms = [m for m in c05() + c06() + c07() + c12() + c14() + c15() + extras() + generic_rules() + round3() + round5() + seeded() if m["id"] not in drop]
+    ms = [m for m in c05() + c06() + c07() + c12() + c14() + c15() + extras() + generic_rules() + round3() + round5() + round6() + seeded() if m["id"] not in drop]
     return ms
